@@ -1,6 +1,9 @@
 """props/C14.py — descriptor for property C14 (factored objects = flat expansion)."""
 REPO_SRCS = ["src/Factored/Utils/Core.cpp", "src/Factored/Utils/FactoredVectorOps.cpp", "src/Factored/Utils/FactoredMatrix.cpp",
-             "src/Factored/Utils/BayesianNetwork.cpp", "src/Factored/Utils/FactoredMatrix2DOps.cpp", "src/Seeder.cpp"]
+             "src/Factored/Utils/BayesianNetwork.cpp", "src/Factored/Utils/FactoredMatrix2DOps.cpp", "src/Seeder.cpp",
+             "src/Factored/MDP/Algorithms/CooperativeQLearning.cpp", "src/Factored/MDP/Algorithms/JointActionLearner.cpp",
+             "src/Factored/MDP/Utils.cpp", "src/Factored/MDP/CooperativeModel.cpp", "src/Factored/Utils/FasterTrie.cpp",
+             "src/Factored/Bandit/Algorithms/Utils/VariableElimination.cpp", "src/MDP/Algorithms/QLearning.cpp", "src/MDP/Utils.cpp"]
 AXIOM_ALLOW = []
 TRUSTED_BASE = ["size_t modelled as unbounded nat (no wrap-around in the modelled range)",
                 "Eigen vectors/matrices modelled as lists of exact rationals; unchecked reads default to 0 in the model "
@@ -105,9 +108,6 @@ def gen_core(rng, kind):
         if kind == "matchp":
             full2 = [x if rng.random() < 0.8 else (x + 1) % 3 for x in full]
             return "matchp %s %s %s %s" % (L(lk), L(rk), L(lv), L([full2[k] for k in rk]))
-        bk, sk = (lk, rk) if len(lk) > len(rk) else (rk, lk)
-        if match_oob(bk, sk):
-            return None
         return "match %s %s %s %s" % (L(lk), L(lv), L(rk), L(rv))
     if kind == "rmf":
         vals = [f[k] for k in keys]
@@ -320,6 +320,43 @@ def gen_2d(rng, kind):
     return "%s %s" % (head, LQ(w))
 
 
+# ---------------------------------------------------------------- learners --------------------
+def gen_learn(rng, kind):
+    disc = rng.choice(["1/2", "3/4", "1"]); alpha = rng.choice(["1/2", "1/4", "1"])
+    if kind == "jal":
+        nS = rng.randint(1, 3)
+        A = [rng.choice([1, 2, 2, 3]) for _ in range(rng.choice([1, 2, 2, 3]))]
+        idd = rng.randrange(len(A))
+        hist = []
+        for _ in range(rng.randint(1, 6)):
+            hist.append("%d %s %d %s" % (rng.randrange(nS), L([rng.randrange(x) for x in A]), rng.randrange(nS), Q(rng.randint(-8, 8))))
+        return "jal %d %s %d %s %s %d %s" % (nS, L(A), idd, disc, alpha, len(hist), " ".join(hist))
+    S = [rng.choice([1, 2, 2, 3]) for _ in range(rng.choice([1, 2, 2]))]
+    A = [rng.choice([1, 2, 2]) for _ in range(rng.choice([1, 2, 2, 4]) if kind == "coop1" else rng.choice([1, 2]))]
+    allS, allA = list(range(len(S))), list(range(len(A)))
+    if kind == "coop1":          # a single factor spanning every state factor and every agent
+        pss = [(allA, [allS] * prod(A)) for _ in S]
+        domains = [allS if rng.random() < 0.5 else [rng.randrange(len(S))]]
+    else:
+        pss = [rparentset(rng, S, A) for _ in S]
+        domains = [sorted(rng.sample(allS, rng.randint(1, len(S)))) for _ in range(rng.randint(1, 2))]
+        # every agent must belong to some basis (agentNormRews_ would be 0 otherwise)
+        used = set(k for d in domains for f in d for k in pss[f][0])
+        if used != set(allA): domains.append(allS); 
+        used = set(k for d in domains for f in d for k in pss[f][0])
+        if used != set(allA): return None
+        # keep the arithmetic dyadic: every agent in 1, 2 or 4 bases
+        for ag in allA:
+            if sum(1 for d in domains if any(ag in pss[f][0] for f in d)) not in (1, 2, 4): return None
+    hist = []
+    for _ in range(rng.randint(1, 6)):
+        hist.append("%s %s %s %s" % (L([rng.randrange(x) for x in S]), L([rng.randrange(x) for x in A]),
+                                     L([rng.randrange(x) for x in S]),
+                                     LQ([Q(rng.choice([-8, -5, -3, -2, -1, 1, 2, 3, 4, 6, 7])) for _ in A])))
+    return "coop %s %s %s %d %s %s %s %d %s" % (L(S), L(A), " ".join(PS(p) for p in pss), len(domains),
+                                               " ".join(L(d) for d in domains), disc, alpha, len(hist), " ".join(hist))
+
+
 CORE_KINDS = ["idx", "fac", "pidx", "pfac", "enum", "enum", "enumall", "enumskip", "enumskip", "enumskip",
               "enumskipall", "ienum", "ienum", "ienumall", "merge", "merge", "match", "matchp", "rmf", "matchf",
               "matchk", "chk", "chk", "kpf", "iskip"]
@@ -333,7 +370,9 @@ def gen(rng, tier):
             c = gen_core(rng, rng.choice(CORE_KINDS))
         elif u < 0.72:
             c = gen_alg(rng, rng.choice(ALG_KINDS))
-        elif u < 0.87:
+        elif u < 0.80:
+            c = gen_learn(rng, rng.choice(["jal", "jal", "coop1", "coop1", "coopg", "coopg"]))
+        elif u < 0.90:
             c = gen_2d(rng, rng.choice(["facout", "facout", "flatb", "fm", "fm", "fm", "fm"]))
         else:
             c = gen_ddn(rng, rng.choice(["ddn", "ddn", "ddnpush"]))
